@@ -1164,6 +1164,19 @@ fn worker(prop: &str, shard: u64, out: &Path, seed: u64, thorough: bool) -> Resu
             "c10" => c10_eval(&h, aux, Some(&mut dist)),
             _ => return Err("unknown property".into()),
         };
+        // a "hang" is a verdict of the watchdog, i.e. of the clock: under heavy machine load (disk stalls while
+        // RocksDB syncs) a request can exceed it without being stuck. It is only reported when it reproduces
+        // on a second run of the same history (a real deadlock or endless loop does).
+        let fs = if fs.iter().any(|f| f.signature.contains("hang")) {
+            let again: Vec<Finding> = match prop {
+                "c01" => c01_eval(&h, None, true, None),
+                "c03" => { let mut f = c03_eval(&h, aux, None); f.extend(c03_loss_eval(&h, aux, None)); f }
+                "c05" => c05_eval(&h, &inj, None),
+                "c06" => c06_eval(&h, None),
+                _ => c10_eval(&h, aux, None),
+            };
+            fs.into_iter().filter(|f| !f.signature.contains("hang") || again.iter().any(|g| g.signature == f.signature)).collect()
+        } else { fs };
         col.evaluations += 1;
         col.add(fs, &h, origin, aux, &inj);
     }
